@@ -20,6 +20,7 @@ func c13Args(cv string) []c13Arg {
 		{"\"lit\"", "lit"}, {"\"<b>&'\"", "&lt;b&gt;&amp;&#39;"}, {"\"\"", ""}, {"\"é日\"", "é日"},
 		{"7", "7"}, {"0", "0"}, {"neg", "-3"}, {"1.5", "1.500000"}, {"true", "True"}, {"false", "False"},
 		{"nothing", ""}, {"cv", htmlEscape(cv)}, {"num", "42"}, {"1 + 2", "3"}, {"cv|upper", htmlEscape(strings.ToUpper(cv))}, {"stringer", "ZStr(" + htmlEscape(cv) + ")"},
+		{"dv", "{DV}"}, {"dv|upper", "{UDV}"}, {"dv + num", "{DV}42"},
 	}
 }
 
@@ -34,6 +35,7 @@ func c13Ctx(cv string) pongo2.Context {
 }
 
 type c13Macro struct {
+	nested   bool // the body prints the parameters a second time inside nested with/for regions
 	nparams  int
 	defaults map[int]c13Arg // by parameter index; evaluated in the defining scope
 }
@@ -51,6 +53,9 @@ func (m c13Macro) def(name string, export bool) string {
 	body.WriteString("<u>BODY[")
 	for i := 0; i < m.nparams; i++ {
 		fmt.Fprintf(&body, "p%d={{ p%d }};", i, i)
+		if m.nested {
+			fmt.Fprintf(&body, "{%% with q=1 %%}{%% for j in one %%}w%d={{ p%d }};{%% endfor %%}{%% endwith %%}", i, i)
+		}
 	}
 	body.WriteString("cv={{ cv }}]</u>")
 	ex := ""
@@ -61,7 +66,7 @@ func (m c13Macro) def(name string, export bool) string {
 }
 
 // expected rendering of one call with the given arguments (nil = too many arguments -> execution error)
-func (m c13Macro) expect(args []c13Arg, cv string, defArgs []c13Arg) (string, bool) {
+func (m c13Macro) expect(args []c13Arg, cv string, defArgs []c13Arg, callIdx int) (string, bool) {
 	if len(args) > m.nparams {
 		return "", false
 	}
@@ -80,7 +85,12 @@ func (m c13Macro) expect(args []c13Arg, cv string, defArgs []c13Arg) (string, bo
 				}
 			}
 		}
+		// dv is re-assigned by a set tag in front of every call: arguments and defaults see the current value
+		v = strings.ReplaceAll(strings.ReplaceAll(v, "{DV}", fmt.Sprintf("d%d", callIdx)), "{UDV}", fmt.Sprintf("D%d", callIdx))
 		fmt.Fprintf(&sb, "p%d=%s;", i, v)
+		if m.nested {
+			fmt.Fprintf(&sb, "w%d=%s;", i, v)
+		}
 	}
 	sb.WriteString("cv=" + htmlEscape(cv) + "]</u>")
 	return sb.String(), true
@@ -90,7 +100,7 @@ func c13Binding(c *C) {
 	r := c.R
 	cvA, cvB := "A<a>", "B&'b"
 	argsA, argsB := c13Args(cvA), c13Args(cvB)
-	m := c13Macro{nparams: r.Intn(5), defaults: map[int]c13Arg{}}
+	m := c13Macro{nparams: r.Intn(5), defaults: map[int]c13Arg{}, nested: r.Bool()}
 	for i := 0; i < m.nparams; i++ {
 		if r.Chance(40) {
 			m.defaults[i] = argsA[r.Intn(len(argsA))]
@@ -124,7 +134,7 @@ func c13Binding(c *C) {
 			for _, ix := range cl.idx {
 				as = append(as, argsA[ix].src)
 			}
-			fmt.Fprintf(&sb, "(%d:{{ %s(%s) }})", i, name, strings.Join(as, ", "))
+			fmt.Fprintf(&sb, "{%% set dv = \"d%d\" %%}(%d:{{ %s(%s) }})", i, i, name, strings.Join(as, ", "))
 		}
 		return sb.String()
 	}
@@ -159,7 +169,7 @@ func c13Binding(c *C) {
 				for _, ix := range cl.idx {
 					as = append(as, defs[ix])
 				}
-				w, ok := m.expect(as, cv, defs)
+				w, ok := m.expect(as, cv, defs, i)
 				if !ok {
 					wantErr = true
 					break
